@@ -355,6 +355,8 @@ def build_request(ex, meta):
         r["field_types"] = dict(x.replace("~", " ").split(":", 1) for x in o["field_types"].split(","))
     if o.get("copied_to_map") == "1":
         r["copied_to_map"] = True
+    if o.get("entry_place") == "1":
+        r["entry_place"] = True
     if "slice_stmt" in o:
         r["slice_stmt"] = o["slice_stmt"].replace("~", " ")
         if "slice_nth" in o:
@@ -363,6 +365,8 @@ def build_request(ex, meta):
             r["slice_sig"] = o["slice_sig"].replace("~", " ")
         if o.get("slice_body") == "1":
             r["slice_body"] = True
+        if "slice_until" in o:
+            r["slice_until"] = o["slice_until"].replace("~", " ")
         if "slice_tail" in o:
             r["slice_tail"] = o["slice_tail"].replace("~", " ")
     if "slice_from" in o or "slice_to" in o:
